@@ -385,12 +385,19 @@ def sc_split(rng, u):
     add_rr(u, "portal." + P, CNAME, cn("a." + S), 120)
     add_rr(u, "portal2." + Q, CNAME, cn("a." + S), 120)
     add_rr(u, "portalnx." + P, CNAME, cn("c." + S), 120)
-    ops = [I("a." + S, A, v4(0x0A020201)), I("d." + S, A, v4(0x0A020204)), I("al." + S, CNAME, cn("portal." + P))]
+    # an upstream chain that passes THROUGH an owned name and leaves again: portal3.P -> e.S -> www.Q.  When the
+    # server of P does not serve Q its reply is CNAME-shaped (no final record) with the owned name as an
+    # intermediate owner; the zone's own e.S must still win
+    add_rr(u, "portal3." + P, CNAME, cn("e." + S), 120)
+    add_rr(u, "e." + S, CNAME, cn("www." + Q), 120)
+    ops = [I("a." + S, A, v4(0x0A020201)), I("d." + S, A, v4(0x0A020204)), I("al." + S, CNAME, cn("portal." + P)),
+           I("e." + S, A, v4(0x0A020205))]
     p.zones.append({"apex": S, "soa": g.soa(S, 300), "ops": ops})
     p.cache = rng.sample([("a." + S, A, 300, v4(0x06060611)), ("c." + S, A, 300, v4(0x06060612)),
                           ("b." + S, A, 300, v4(0x06060613))], rng.randint(0, 3))
     qs = [("a." + S, A), ("b." + S, A), ("c." + S, A), ("portal." + P, A), ("portal2." + Q, A), ("portalnx." + P, A),
-          (S, SOA), ("a." + S, ANY), ("al." + S, A), ("portal." + P, ANY), ("portal." + P, AAAA)]
+          (S, SOA), ("a." + S, ANY), ("al." + S, A), ("portal." + P, ANY), ("portal." + P, AAAA),
+          ("portal3." + P, A), ("portal3." + P, A), ("portal3." + P, AAAA), ("portal3." + P, TXT)]
     p.questions = rng.sample(qs, rng.randint(3, 8))
     return p
 
@@ -773,6 +780,19 @@ def corpus(batch):
         p.questions = [("a." + S, A), ("portal2." + Q, A), ("portal." + P, A), ("portal." + P, A)]
         return p
     both(c8)
+
+    # an upstream chain passing THROUGH an owned name and out again (a CNAME-shaped reply whose intermediate owner
+    # the local zone owns): the zone's record for the owned name wins, for the address and for a type it lacks
+    def c8e(u):
+        p = Parts("split-horizon-chain-through-owned")
+        P, Q = u.chain[-1], u.other
+        S = "ent." + P
+        add_rr(u, "portal3." + P, CNAME, cn("e." + S), 120)
+        add_rr(u, "e." + S, CNAME, cn("www." + Q), 120)
+        p.zones = [{"apex": S, "soa": g.soa(S, 300), "ops": [I("e." + S, A, v4(0x0A020205))]}]
+        p.questions = [("portal3." + P, A), ("portal3." + P, TXT), ("portal3." + P, A), ("e." + S, A)]
+        return p
+    both(c8e)
 
     # the same through the CACHE: the alias and an upstream address for the owned name are cached beforehand
     def c8c(u):
